@@ -146,9 +146,18 @@ def initCells (fam : Family) (w h : Nat) (extra : List Loc) : List Loc :=
   | .cs | .xcs => []
   | _ => gridCells w h
 
+/-- what the constructors refuse: the `discrete_space` grids a dimension 0 ("Dimensions must be a list of positive
+    integers"), `VoronoiGrid` an empty list of centroids (IndexError).  The `mesa.space` grids and continuous
+    spaces accept size 0, the networks an empty graph. -/
+def constructible (fam : Family) (w h : Nat) (extra : List Loc) : Bool :=
+  match fam with
+  | .moore | .vn | .hex => decide (0 < w) && decide (0 < h)
+  | .vor => !extra.isEmpty
+  | _ => true
+
 /-- a fresh space.  Duplicated nodes / centroids are refused. -/
 def Space.init? (fam : Family) (w h : Nat) (extra : List Loc) : Option Space :=
-  if (initCells fam w h extra).Nodup then
+  if constructible fam w h extra = true ∧ (initCells fam w h extra).Nodup then
     some { fam, w, h, cells := initCells fam w h extra, placed := [] }
   else none
 
@@ -253,6 +262,8 @@ def linewidthss (es : List Entry) : List (Option Val) := optArray (·.linewidths
 inductive Err where
   | attribute         -- AttributeError (agent without pos and cell)
   | notImplemented    -- NotImplementedError
+  | zeroDivision      -- ZeroDivisionError (a size computed for a space without extent)
+  | value             -- ValueError (`x, y = zip(*pos.values())` for a network without nodes)
 deriving DecidableEq, Repr
 
 /-- `_fill_unspecified` for one optional key of one scatter call (`ms`: the agents the two masks select).
@@ -327,11 +338,28 @@ def transform (fam : Family) (l : Loc) : Loc :=
 def hexCenter (col row : Nat) : Loc :=
   ⟨2 * (col : Int) + (if row % 2 == 0 then 1 else 0), 3 * (row : Int)⟩
 
-/-- `draw_space(space, agent_portrayal)`: the scatter calls made on the Axes -/
-def drawSpace (sp : Space) (heap : Heap) (p : Portrayal) : Except Err (List Group) :=
+/-- What the `draw_*` function of the class raises before it looks at the agents: the default marker size
+    `(180 / max(width, height)) ** 2` on a grid or continuous space of size 0 × 0 (ZeroDivisionError; only `mesa.space`
+    classes can be built that small), `x, y = list(zip(*pos.values()))` on a network without nodes (ValueError).
+    Such a space cannot hold an agent.  (A Voronoi grid with a single centroid — an extent of 0 — is sized like a single
+    cell since fix V15, as a one-node network since V12.) -/
+def drawRaises (sp : Space) : Option Err :=
+  match sp.fam with
+  | .netgrid | .net => if sp.cells.isEmpty then some .value else none
+  | .vor => none
+  | _ => if sp.w = 0 ∧ sp.h = 0 then some .zeroDivision else none
+
+/-- the agents' part of `draw_*`: `collect_agent_data`, the location transform, `_scatter` -/
+def drawAgents (sp : Space) (heap : Heap) (p : Portrayal) : Except Err (List Group) :=
   match collectAgentData drawDefaults heap p (spaceAgents sp) with
   | none => .error .attribute
   | some es => .ok (scatter (es.map fun e => { e with loc := transform sp.fam e.loc }))
+
+/-- `draw_space(space, agent_portrayal)`: the scatter calls made on the Axes -/
+def drawSpace (sp : Space) (heap : Heap) (p : Portrayal) : Except Err (List Group) :=
+  match drawRaises sp with
+  | some e => .error e
+  | none => drawAgents sp heap p
 
 /-! ## Altair -/
 
@@ -385,6 +413,11 @@ def imshowRows (L : Layer) : List (List (Option Int)) :=
     hexagons row by row: hexagon number `k` is column `k % w`, row `k / w` -/
 def hexColors (L : Layer) : List (Option Int) :=
   (List.range L.h).flatMap fun r => (List.range L.w).map fun c => L.at c r
+
+/-- `_get_hexmesh(width, height)`: one hexagon per cell, `for row, col in itertools.product(range(height), range(width))`
+    — row by row —, here the centre of each (`x = col·√3 + (row % 2 == 0)·√3/2`, `y = row·1.5` in the units of `hexCenter`) -/
+def hexMesh (w h : Nat) : List Loc :=
+  (List.range h).flatMap fun row => (List.range w).map fun col => hexCenter col row
 
 /-! ## _check_model_params, split_model_params -/
 
